@@ -509,6 +509,8 @@ Fixpoint replay_loop (c : cfg) (rows : list (Z * msg)) (gfb gfe : Z) : M (Z * Z)
       t <- lift (get_tag T35 dm) ;;
       if is_noreply t || negb (c_replay c dm) then replay_loop c rows' gfb (n + 1)
       else
+        (* numbers missing in the journal before this message are gap filled too *)
+        let gfe := if gfb <? n then n else gfe in
         (if gfb <? gfe then send_msg c (gap_fill gfb (z_to_dec gfe)) else ret tt) ;;;
         m1 <- lift (set_tag T43 S_Y dm) ;;
         v52 <- lift (get_tag T52 m1) ;;
@@ -530,7 +532,9 @@ Definition process_resend (c : cfg) (m : msg) : M unit :=
   let cur := nout w1 in
   g <- replay_loop c rows b b ;;
   (if cur <? snd g then raise XAssertion else ret tt) ;;;
-  (if fst g <? cur then send_msg c (gap_fill (fst g) (z_to_dec cur)) else ret tt) ;;;
+  (* the tail gap fill: only up to the requested EndSeqNo *)
+  let last := Z.min cur (e + 1) in
+  (if fst g <? last then send_msg c (gap_fill (fst g) (z_to_dec last)) else ret tt) ;;;
   w2 <- getw ;;
   if negb (st w2 =? ST_AWAITING) then state_set ST_ACTIVE else ret tt.
 
